@@ -436,3 +436,68 @@ Lemma bump_nth b f inc maxb maxf avail m : (m < List.length b)%nat ->
   nth m (snd (bump b f inc maxb maxf avail)) 0 =
     snd (bump1 (nth m b 0) (nth m f 0) (nth m inc 0) (nth m maxb 0) (nth m maxf 0) (nth m avail 0)).
 Proof. intro H. unfold bump. simpl fst; simpl snd. rewrite !nth_tab by exact H. split; reflexivity. Qed.
+
+
+(* ---------------- the validators called at the end of calculate_human_consumption_for_min_needs never fire *)
+Lemma usage_ok_consume : forall fs rem prev, nonneg fs -> 0 <= rem -> (100 <= prev \/ rem == 0) ->
+  usage_ok prev (consume_all rem fs) fs = true.
+Proof.
+  induction fs as [|f fs IH]; intros rem prev Hn Hr Hinv; simpl; [reflexivity|].
+  inversion Hn as [|? ? Hf Hfs]; subst.
+  set (c := pymin f rem).
+  assert (Hc : 0 <= c /\ c <= f /\ c <= rem /\ (c = f \/ rem - c == 0)).
+  { unfold c. destruct (pymin_spec f rem) as [[H ->]|[H ->]].
+    - split; [lra|split; [lra|split; [lra|now left]]].
+    - split; [lra|split; [lra|split; [lra|right; ring]]]. }
+  destruct Hc as (C0 & C1 & C2 & C3).
+  destruct (Qle_bool f eps4 || Qle_bool (100 * c / f) eps4) eqn:E.
+  - apply IH; auto; [lra|]. destruct Hinv as [H|H]; [now left|right; lra].
+  - apply orb_false_iff in E. destruct E as [E1 E2].
+    assert (F1 : eps4 < f) by (destruct (Qle_bool_spec f eps4); [discriminate|lra]).
+    assert (F2 : eps4 < 100 * c / f) by (destruct (Qle_bool_spec (100 * c / f) eps4); [discriminate|lra]).
+    assert (Fp : 0 < f) by (unfold eps4 in F1; lra).
+    assert (P100 : 100 * c / f <= 100) by (apply Qle_shift_div_r; [exact Fp|lra]).
+    destruct (Qle_bool_spec (100 * c / f) (prev * (1 + eps4))) as [E3|E3].
+    + apply IH; auto; [lra|]. destruct C3 as [->|C3]; [left|now right].
+      assert (100 * f / f == 100) by (field; lra). lra.
+    + exfalso. apply E3. destruct Hinv as [H|H].
+      * unfold eps4. nra.
+      * assert (100 * c / f <= 0) by (apply Qle_shift_div_r; [exact Fp|lra]). unfold eps4 in F2. lra.
+Qed.
+
+Lemma in_combine_map {A B} (g : A -> B) : forall l a b, In (a, b) (combine l (map g l)) -> b = g a.
+Proof.
+  induction l; simpl; intros x y H; [contradiction|].
+  destruct H as [H|H]; [now inversion H|now apply IHl].
+Qed.
+
+Lemma validator_avail_eq r m : validator_avail r m = month_foods r m.
+Proof. reflexivity. Qed.
+
+Theorem min_needs_accepts K T pf Kc N r :
+  r1_nonneg r -> (N <= min_len r)%nat -> 0 <= needs_cap K T pf -> needs_cap K T pf <= Kc * (1 + eps4) ->
+  exists d, min_needs K T pf Kc N r = Ok d.
+Proof.
+  intros Hr Hlen Hc0 Hc1. unfold min_needs.
+  destruct (Nat.ltb_spec (min_len r) N) as [H|_]; [lia|].
+  set (cap := needs_cap K T pf) in *.
+  assert (W : within_limits cap (min_needs_rows cap r N) = true).
+  { unfold within_limits, min_needs_rows. apply forallb_forall. intros row Hrow.
+    apply in_map_iff in Hrow. destruct Hrow as (m & <- & _).
+    apply forallb_forall. intros x Hx. destruct (In_nth _ _ 0 Hx) as (j & _ & <-).
+    apply Qle_bool_iff.
+    destruct (consume_bounds (month_foods r m) cap (month_foods_nonneg r m Hr) Hc0 j) as (_ & _ & B). exact B. }
+  assert (S : sum_ok Kc (min_needs_rows cap r N) = true).
+  { unfold sum_ok, min_needs_rows. apply forallb_forall. intros row Hrow.
+    apply in_map_iff in Hrow. destruct Hrow as (m & <- & _). apply Qle_bool_iff.
+    rewrite (consume_sum (month_foods r m) cap (month_foods_nonneg r m Hr) Hc0).
+    pose proof (Q.le_min_l cap (qsum (month_foods r m))). lra. }
+  assert (P : priorities_ok r (min_needs_rows cap r N) = true).
+  { unfold priorities_ok. apply forallb_forall. intros [m row] Hin. simpl fst; simpl snd.
+    assert (L : List.length (min_needs_rows cap r N) = N)
+      by (unfold min_needs_rows; now rewrite map_length, seq_length).
+    rewrite L in Hin. unfold min_needs_rows in Hin.
+    apply in_combine_map in Hin. subst row. change (validator_avail r m) with (month_foods r m).
+    apply usage_ok_consume; [apply month_foods_nonneg; exact Hr|exact Hc0|left; lra]. }
+  rewrite W, S, P. simpl. eexists. reflexivity.
+Qed.
